@@ -441,6 +441,25 @@ example : (bufferNullableOld.runChunks (([] : List Nat), [], 0) [[(10, true), (1
     = ([10, 11, 12, 20], [0, 2, 8], 2) := by decide
 
 open LM.StreamOps in
+/-- `ValToNullableInt` with block output (integer keys unpacked from value rows) as repaired in /repo 3044fa3 satisfies the
+    chunk law; as it was before (presence bit at the index WITHIN the chunk while the data accumulates) it does not: the
+    keys of every chunk after the first read as NULL.  (Part of `groupby-valrows-streamed`; witness on the real code:
+    corpus class `corpus:groupby-valrows-streamed`, 20 rows, batch_size 8.) -/
+theorem C02_val_to_nullable_lawful : valToNullableOp.Lawful := valToNullableOp_lawful
+
+open LM.StreamOps in
+theorem C02_val_to_nullable_old_refuted : ¬ valToNullableOld.Lawful := by
+  intro h
+  have := h.2 ([], []) [some 5] [some 6]
+  revert this
+  decide
+
+open LM.StreamOps in
+example : (valToNullableOp.runChunks ([], []) [[some 5, none], [some 6]]).1 = ([5, 0, 6], [0, 2]) := by decide
+open LM.StreamOps in
+example : (valToNullableOld.runChunks ([], []) [[some 5, none], [some 6]]).1 = ([5, 0, 6], [0]) := by decide
+
+open LM.StreamOps in
 /-- LATENT (model level, no plan observed that reaches it): `SelectNullable::execute(stream = false)` called once per chunk
     — block output inside a streaming stage — accumulates the data but sets presence bits at chunk-relative positions,
     so it does NOT satisfy the chunk law.  Every `SelectNullable` the differential has seen has a streaming consumer
